@@ -53,23 +53,67 @@ def sha(s: str | None) -> str | None:
 # identity-hash seam
 # ----------------------------------------------------------------------------------------
 class IdHash:
+    """Seeded object identity.  Every PyTeal class that inherits object.__hash__ (identity
+    equality, so any per-object constant is a legal hash) gets a __hash__ that returns a value
+    drawn from the run's PRNG the first time the object is hashed; the name `id` seen by PyTeal's
+    own modules is shadowed by an injective seeded relabelling of the real id().  Iteration order of
+    sets/dicts of such objects, and any ordering by id(), thereby become functions of the seed
+    instead of memory addresses.  Objects whose identity was taken are kept alive for the rest of
+    the (short-lived) child, so a value is never handed to a second object."""
+
     rng: random.Random | None = None
+    table: dict = {}
+    patched_classes = 0
+
+    @staticmethod
+    def identity_hashed_classes() -> list:
+        import enum
+        import inspect
+
+        out, seen = [], set()
+        for name in sorted(sys.modules):
+            if not (name == "pyteal" or name.startswith("pyteal.") or name.startswith("feature_gates")):
+                continue
+            mod = sys.modules[name]
+            for n in sorted(vars(mod)):
+                c = vars(mod)[n]
+                if not inspect.isclass(c) or c in seen:
+                    continue
+                seen.add(c)
+                if not c.__module__.startswith(("pyteal", "feature_gates")):
+                    continue
+                if issubclass(c, (BaseException, enum.Enum)):
+                    continue
+                if c.__hash__ is object.__hash__:
+                    out.append(c)
+        return out
 
     @staticmethod
     def install(seed: int) -> None:
-        IdHash.rng = random.Random(seed)
+        IdHash.rng = rng = random.Random(seed)
+        table = IdHash.table
+        real_id = id
 
         def _vh(self):
-            h = self.__dict__.get("_vh")
-            if h is None:
-                h = IdHash.rng.getrandbits(61)
-                self.__dict__["_vh"] = h
-            return h
+            k = real_id(self)
+            e = table.get(k)
+            if e is None:
+                e = (rng.getrandbits(61), self)
+                table[k] = e
+            return e[0]
 
-        # ScratchSlot defines neither __eq__ nor __hash__: equality is identity, so any
-        # per-object constant is a legal hash.  This makes set iteration order a function
-        # of the seed instead of memory addresses.
-        ScratchSlot.__hash__ = _vh  # type: ignore[assignment]
+        def _vid(o):
+            return _vh(o)
+
+        classes = IdHash.identity_hashed_classes()
+        for c in classes:
+            c.__hash__ = _vh  # type: ignore[assignment]
+        IdHash.patched_classes = len(classes)
+        for name in list(sys.modules):
+            if name == "pyteal" or name.startswith("pyteal.") or name.startswith("feature_gates"):
+                mod = sys.modules[name]
+                if mod is not None and "id" not in vars(mod):
+                    vars(mod)["id"] = _vid
 
 
 # ----------------------------------------------------------------------------------------
@@ -228,16 +272,34 @@ class Probes:
 
 
 class Forget:
-    """Causal test used to attribute a violation to finding D3 (DESIGN.md 3.9): when armed for
-    program `pid`, every subroutine declaration that gets evaluated and cached DURING one of
-    that program's compile/probe calls is dropped again when the call ends, so each compile
-    starts from exactly what the build steps left behind.  If a deviation from the
-    fresh-process reference disappears under this patch, it was caused by declarations cached
-    by the program's own earlier compile/probe calls and by nothing else."""
+    """Causal test used to attribute a violation to finding D3 (DESIGN.md 3.9).  D3's call site is
+    the eager evaluation of the callee's scratch-convention declaration in
+    `ReturnedValue.store_into` (pyteal/ast/abi/type.py): it runs whenever `x.set(f(...))` is
+    constructed, also while the enclosing body is being evaluated for the OTHER calling
+    convention or inside a compile that later aborts, and leaves `f`'s declaration cached with
+    slot ids that are older than those of the routine that will contain it next time.
+    When armed for program `pid`, every declaration that gets evaluated and cached THROUGH THAT
+    CALL SITE (a `store_into` frame of abi/type.py is on the stack) during one of that program's
+    compile/probe calls is dropped again when the call ends.  If a deviation from the
+    fresh-process reference disappears under this patch, it was caused by declarations cached by
+    the eager call site during the program's own earlier compiles and by nothing else.
+    Declarations cached on the ordinary path (compileSubroutine) are never dropped, so a deviation
+    that involves those - a different defect - stays a violation."""
 
     pid = None
     active: list | None = None
     dropped = 0
+    narrow = True
+
+    @staticmethod
+    def _via_eager_site() -> bool:
+        f = sys._getframe(2)
+        while f is not None:
+            c = f.f_code
+            if c.co_name == "store_into" and c.co_filename.replace(os.sep, "/").endswith("pyteal/ast/abi/type.py"):
+                return True
+            f = f.f_back
+        return False
 
     @classmethod
     def install(cls, pid):
@@ -249,7 +311,7 @@ class Forget:
         def recording(self, fp_option=True):
             pre = self.option_map[fp_option] is not None
             d = orig(self, fp_option)
-            if not pre and cls.active is not None:
+            if not pre and cls.active is not None and (not cls.narrow or cls._via_eager_site()):
                 cls.active.append((self, fp_option))
             return d
 
@@ -299,10 +361,13 @@ def _install_probes():
 
     orig_reset = ScratchSlot.reset_slot_numbering.__func__
 
-    def reset_probe(cls, start_index=256):
-        if start_index < cls.nextSlotId:
+    def reset_probe(cls, *a, **k):
+        # signature-transparent: whatever defaults the repository's method has stay in force
+        before = cls.nextSlotId
+        r = orig_reset(cls, *a, **k)
+        if cls.nextSlotId < before:
             Probes.hit("slot_counter_rewind")
-        return orig_reset(cls, start_index)
+        return r
 
     ScratchSlot.reset_slot_numbering = classmethod(reset_probe)
 
@@ -310,6 +375,14 @@ def _install_probes():
 # ----------------------------------------------------------------------------------------
 # the world
 # ----------------------------------------------------------------------------------------
+def _churn_body(i):
+    def churn_fn():
+        return pt.Int(i)
+
+    churn_fn.__name__ = f"churn{i}"
+    return churn_fn
+
+
 def _depth() -> int:
     f = sys._getframe()
     n = 0
@@ -348,6 +421,11 @@ class World:
         self.base_depth = None
         self.errmsgs: list = []  # free text (may contain ids/addresses): never compared
         self.in_reclimit_fault = False
+        self.churn_keep: list = []
+        self.shared_opts: dict = {}
+        self.gate_attempt: dict = {}  # pid -> gates at the first attempt of each step
+        self.build_log: dict = {}  # pid -> [[step, "ok" | exception class | "abort", op index]]
+        self.cur_build_step = None
 
     def fired(self, kind):
         self.faults_fired[kind] = self.faults_fired.get(kind, 0) + 1
@@ -355,7 +433,10 @@ class World:
     def env(self, pid) -> builder.ProgramEnv:
         if pid not in self.envs:
             self.envs[pid] = builder.ProgramEnv(self.specs[pid])
+            self.envs[pid].shared_pool = self.shared_opts
             self.gate_steps[pid] = []
+            self.gate_attempt[pid] = []
+            self.build_log[pid] = []
         return self.envs[pid]
 
     # -- op bodies (each is ONE public API call or one builder step) -----------------
@@ -369,6 +450,10 @@ class World:
             i = env.next_step
             if i >= len(env.spec["steps"]):
                 return ("skip", "nosteps")
+            ga = self.gate_attempt[op["p"]]
+            if len(ga) <= i:
+                ga.append(list(self.expected_gates))
+            self.cur_build_step = i
             env.do_step(i)
             env.next_step = i + 1
             self.gate_steps[op["p"]].append(list(self.expected_gates))
@@ -397,6 +482,20 @@ class World:
         if k == "gate":
             FeatureGates.set(op["feature"], op["value"])
             self.expected_gates[0 if op["feature"] == "sourcemap_enabled" else 1] = op["value"]
+            return ("ok", None, None)
+        if k == "churn":
+            # unrelated code in the same process allocating PyTeal objects in bulk
+            n = op.get("n", 10)
+            w = op.get("what")
+            if w == "slots":
+                junk = [pt.ScratchSlot() for _ in range(n)]
+            elif w == "vars":
+                junk = [pt.ScratchVar(pt.TealType.uint64) for _ in range(n)]
+            elif w == "abi":
+                junk = [pt.abi.Uint64() for _ in range(n)]
+            else:
+                junk = [pt.Subroutine(pt.TealType.uint64)(_churn_body(i)) for i in range(n)]
+            self.churn_keep.append(junk if n % 2 else None)
             return ("ok", None, None)
         if k == "gc":
             gc.collect()
@@ -534,6 +633,11 @@ class World:
 
     def _record(self, idx, op, out):
         ev = {"i": idx, "op": op["op"], "p": op.get("p"), "res": out[0]}
+        if op["op"] == "build" and out[0] != "skip" and self.cur_build_step is not None:
+            r0 = out[0]
+            cls = "ok" if r0 in ("ok", "abort+retry:ok") else (out[1] if r0 in ("err", "abort+retry:err") else "abort")
+            self.build_log[op["p"]].append([self.cur_build_step, cls, idx])
+            self.cur_build_step = None
         if out[0] == "ok" and op["op"] == "compile":
             ev["d"] = [sha(out[1]), sha(out[2])]
         elif out[0] == "err":
@@ -605,6 +709,8 @@ class World:
             "faults_fired": self.faults_fired,
             "probes": Probes.counters,
             "retired": sorted(self.retired),
+            "build_log": self.build_log,
+            "gate_attempt": self.gate_attempt,
             "algod_log": self.algod_log,
             "errmsgs": self.errmsgs,
         }
@@ -650,3 +756,88 @@ def run_reference(job: dict) -> dict:
         return {"outcome": ["err", "RecursionError", ""]}
     except BaseException as e:  # noqa: BLE001
         return {"outcome": ["err", type(e).__name__, str(e)[:300]]}
+
+
+def _ref_compile_in_grandchild(env, ob) -> list:
+    """fork; the copy sets the gates, compiles once and reports; the builder process itself never
+    compiles, so every reference compile starts from exactly 'P built alone in a pristine process'"""
+    r, w = os.pipe()
+    pid = os.fork()
+    if pid == 0:
+        out = ["err", "HarnessError", "grandchild failed"]
+        try:
+            os.close(r)
+            try:
+                sys.setrecursionlimit(_depth() + HEADROOM)
+                g = ob.get("gate_compile") or [False, False]
+                FeatureGates.set_sourcemap_enabled(g[0])
+                FeatureGates.set_sourcemap_debug(g[1])
+                algod = None
+                sm = ob["opts"].get("sm")
+                if sm and sm.get("pcs"):
+                    algod = FakeAlgod(ob.get("algod"), [])
+                ap, cl = env.compile(ob["opts"], algod=algod)
+                out = ["ok", ap, cl]
+            except RecursionError:
+                out = ["err", "RecursionError", ""]
+            except BaseException as e:  # noqa: BLE001
+                try:
+                    msg = str(e)[:300]
+                except BaseException:  # noqa: BLE001
+                    msg = ""
+                out = ["err", type(e).__name__, msg]
+            with os.fdopen(w, "wb") as f:
+                f.write(json.dumps(out).encode())
+        finally:
+            os._exit(0)
+    os.close(w)
+    with os.fdopen(r, "rb") as f:
+        data = f.read()
+    os.waitpid(pid, 0)
+    if not data:
+        return ["err", "HarnessError", "no data from reference grandchild"]
+    return json.loads(data)
+
+
+def run_references(job: dict) -> dict:
+    """Entry point for a 'refs' job: the fresh-process references of ALL observed compiles of one
+    program.  The program is built alone, step by step, in this pristine process (natural object
+    hashes, the reference's own hash seed); whenever the number of built steps equals the step
+    count an observation was made at, a copy of the process is forked for that observation and
+    compiles once.  job: {spec, gate_steps, observations: [{i, nsteps, gate_compile, opts, algod}]}
+    Returns {"outcomes": {str(i): outcome}, "build": [per-step "ok" | exception class]}."""
+    env = builder.ProgramEnv(job["spec"])
+    env.shared_pool = {}
+    gates = job.get("gate_steps") or []
+    obs = sorted(job["observations"], key=lambda o: (o["nsteps"], o["i"]))
+    outcomes: dict = {}
+    build: list = []
+    built = 0
+    stuck = None
+    nmax = max([o["nsteps"] for o in obs] + [job.get("build_upto", 0)])
+    oi = 0
+    while True:
+        while oi < len(obs) and obs[oi]["nsteps"] == built:
+            outcomes[str(obs[oi]["i"])] = _ref_compile_in_grandchild(env, obs[oi])
+            oi += 1
+        if built >= nmax or stuck is not None:
+            break
+        g = gates[built] if built < len(gates) else [False, False]
+        FeatureGates.set_sourcemap_enabled(g[0])
+        FeatureGates.set_sourcemap_debug(g[1])
+        sys.setrecursionlimit(_depth() + HEADROOM)
+        try:
+            env.do_step(built)
+            env.next_step = built + 1
+            build.append("ok")
+            built += 1
+        except RecursionError:
+            build.append("RecursionError")
+            stuck = "RecursionError"
+        except BaseException as e:  # noqa: BLE001
+            build.append(type(e).__name__)
+            stuck = type(e).__name__
+    for o in obs[oi:]:
+        # the history built more steps than a pristine process can: reported as a build mismatch
+        outcomes[str(o["i"])] = ["err", "BuildStuck:" + str(stuck), ""]
+    return {"outcomes": outcomes, "build": build}
